@@ -326,7 +326,7 @@ class Ctx:
         # parse Print Assumptions blocks, in order of appearance
         blocks = re.split(r'(?=Closed under the global context|Axioms:)', out)
         blocks = [b.strip() for b in blocks if b.strip().startswith(('Closed under', 'Axioms:'))]
-        pa_names = re.findall(r'Print Assumptions\s+([A-Za-z_0-9\'.]+)', src)
+        pa_names = re.findall(r'Print Assumptions\s+([A-Za-z_0-9\'.]*[A-Za-z_0-9\'])', src)
         ok = True
         for i, nm in enumerate(pa_names):
             b = blocks[i] if i < len(blocks) else '<no output>'
